@@ -34,10 +34,24 @@ def load_allow():
     return json.loads(p.read_text())
 
 
-def allowed(store, allow):
+def allowed(store, allow, sites=None):
+    if store.own_star:
+        return {"category": "own-kwargs", "reason": "*args / **kwargs are objects created for this call"}
     for a in allow["allow"]:
-        if a["file"] == store.file and (a["function"] == "" or store.func == a["function"]) and store.target.startswith(a["target"]):
+        if a["file"] != store.file or not (a["function"] == "" or store.func == a["function"]):
+            continue
+        if "param" in a:
+            # the store goes through the function's parameter number `param`, whatever it is called
+            if store.pidx == a["param"]:
+                return a
+            continue
+        if store.target.startswith(a["target"]):
             return a
+    # a module-level private helper that writes into a parameter is fine when every caller hands it an object of its own
+    if sites is not None and store.pidx is not None and "." not in store.func and store.func.startswith("_"):
+        calls = sites.get((store.file, store.func), [])
+        if calls and all(len(fr) > store.pidx and fr[store.pidx] == "fresh" for fr in calls):
+            return {"category": "helper-of-fresh-argument", "reason": f"all {len(calls)} call sites pass an object allocated by the caller (or its own **kwargs)"}
     for pat in allow.get("registration_patterns", []):
         if "/_compute/" in store.file and store.func.startswith(pat["function_prefix"]) and store.target.startswith(pat["target_prefix"]):
             return pat
@@ -52,6 +66,7 @@ def run(ctx):
     ctx.rule("C16.self-slot", "self.<attr> stores occur only in constructors, property setters, __array_finalize__/__setstate__ or functions of the in-place API")
     ctx.rule("C16.known", "known finding: store through self.dtype in Momentum*Numpy.__array_finalize__")
     stores = effects.analyse_repo(ctx.repo)
+    sites = effects.helper_call_sites(ctx.repo)
     ctx.anchor("stores analysed", len(stores), 600)
     # (1) compute layer
     comp_fn_stores = {}
@@ -87,7 +102,7 @@ def run(ctx):
             continue  # module level: class cross-references, behavior tables (import time; C20 checks who writes them)
         if s.cls in ("borrowed", "self-deep", "self-item"):
             nb += 1
-            a = allowed(s, allow)
+            a = allowed(s, allow, sites)
             if s.cls == "self-deep" and s.target.startswith("self.dtype.names"):
                 ctx.ob("C16.borrowed-store", f"{s.file}::{s.func}::{s.target}", False,
                        "stores into self.dtype, a dtype object shared with the array being viewed: arr.view(MomentumNumpyND) renames the caller's fields",
@@ -97,7 +112,7 @@ def run(ctx):
                    f"{s.kind} store into a borrowed object ({s.base}) outside the enumerated in-place API", s.as_dict(), f"{s.file}:{s.line}",
                    sample={"store": s.as_dict(), "allowed_as": a.get("category") if a else None})
         elif s.cls == "self-slot":
-            ok = any(tok in s.func for tok in SELF_SLOT_OK) or allowed(s, allow) is not None
+            ok = any(tok in s.func for tok in SELF_SLOT_OK) or allowed(s, allow, sites) is not None
             ctx.ob("C16.self-slot", f"{s.file}::{s.func}::{s.target}", ok,
                    "stores into self outside constructors/setters/finalizers", s.as_dict(), f"{s.file}:{s.line}")
     ctx.anchor("borrowed stores examined", nb, 30)
